@@ -378,7 +378,7 @@ out:
 }
 
 // classify turns a worker outcome into a violation (or nil), filling in race details.
-func classify(wo *workerOut, prop string, hangIsViolation bool) (*Violation, []uint32, int) {
+func classify(wo *workerOut, prop string, hangIsViolation bool, b ...*Batch) (*Violation, []uint32, int) {
 	if wo.exit == 3 || wo.hang != "" {
 		v := &Violation{Property: prop, Oracle: "hang", Signature: "hang", Message: "a task did not reach its next yield within the watchdog time\n" + firstLines(wo.hang, 60)}
 		if !hangIsViolation {
@@ -396,6 +396,9 @@ func classify(wo *workerOut, prop string, hangIsViolation bool) (*Violation, []u
 	if v.Oracle == "race" {
 		v.Signature = raceSignature(wo.raceLog)
 		v.Message = "data race reported by the race detector under a serial, simulator-chosen schedule\n" + firstLines(wo.raceLog, 70)
+		if len(b) > 0 && b[0].RaceProp != "" && (b[0].RaceOwn == "" || strings.Contains(v.Signature, b[0].RaceOwn)) {
+			v.Property = b[0].RaceProp
+		}
 	}
 	return v, wo.res.Choices, wo.res.ViolRun
 }
@@ -426,7 +429,7 @@ func replayOnce(bb *builtBin, b *Batch, prop string, choices []uint32, tag strin
 		os.Remove(f)
 	}
 	wo := runWorker(bb.path, workerEnv(b, prop, "VW_MODE=replay", "VW_REPLAY="+rf, "VW_KNOWN="+knownEnv(prop)), out, 5*time.Minute)
-	v, _, _ := classify(wo, prop, b.HangIsViolation)
+	v, _, _ := classify(wo, prop, b.HangIsViolation, b)
 	return v, wo
 }
 
@@ -749,7 +752,7 @@ func main() {
 			if wo.res != nil {
 				ev.merge(b, wo.res, bb)
 			}
-			v, ch, vr := classify(wo, prop, b.HangIsViolation)
+			v, ch, vr := classify(wo, prop, b.HangIsViolation, b)
 			if v == nil {
 				continue
 			}
